@@ -452,6 +452,27 @@ def p_call_helper_const_plain(s, v):
     return helper_saturation_const(s) * v
 
 
+# known numpy functions applied to constants (the only arguments the translator accepts for them): the value must be numpy's
+def p_np_positive_of_constant(x):
+    return x * np.positive(-2.0)
+
+
+def p_np_less_tie_of_constants(x):
+    return x + np.less(1.5, 1.5)
+
+
+def p_np_greater_tie_of_constants(x):
+    return x + np.greater(2.5, 2.5)
+
+
+def p_np_maximum_of_constants(x):
+    return x * np.maximum(1.5, 0.25)
+
+
+def p_np_minimum_of_constants(x):
+    return x * np.minimum(1.5, 0.25)
+
+
 PROGRAMS = [v for k, v in sorted(globals().items()) if k.startswith("p_") and callable(v)]
 # constructs with an open finding on the pinned tree: kept out of composites, probed individually
 FINDING_PROBES = {"p_if_assign_branch", "p_if_else_assign_then_return", "p_return_in_else_only"}
